@@ -109,7 +109,7 @@ class CallMixin:
                 handled = True
                 for s2, args in self.ev_list(e.args, s, cx):
                     nb, rv = self.mutate(b, e.func.attr, args, s2, cx)
-                    for s3 in self.assign_target(e.func.value, nb, s2, cx):
+                    for s3 in self.assign_target(e.func.value, nb, s2, cx, mutation=True):
                         # reference semantics for the one aliasing pattern that is modelled: a local bound directly to a
                         # container-valued attribute (x = obj.f; x.append(..)) also updates obj.f
                         if isinstance(e.func.value, ast.Name):
@@ -206,6 +206,9 @@ class CallMixin:
             if len(args) == 1 and isinstance(args[0], VStarList):
                 return [(st, VChain(args[0].v))]
             raise Unsupported("itertools.chain of explicit iterables")
+        if f.kind == "external" and qn.startswith("logging."):
+            self.warnings.append("logging calls are not modelled (no effect on the translator's state or output)")
+            return [(st, VOpaque("logging"))]
         if f.kind == "external":
             raise Unsupported("call of external %s without an assumed contract" % qn)
         if f.kind == "repo":
